@@ -663,11 +663,35 @@ class Impl:
         return out
 
 
+def parallel_lean(orig, driver, lines, timeout, workers=4):
+    """split the op stream at case boundaries and run several driver processes side by side"""
+    starts = [i for i, ln in enumerate(lines) if ln.startswith("case ")]
+    if len(starts) < 2 * workers or len(lines) < 2000:
+        return orig(driver, lines, timeout)
+    from concurrent.futures import ThreadPoolExecutor
+    # balance by characters
+    total = sum(len(ln) for ln in lines)
+    chunks, cur, size = [], [], 0
+    bounds = starts + [len(lines)]
+    for a, b in zip(bounds, bounds[1:]):
+        seg = lines[a:b]
+        cur.extend(seg)
+        size += sum(len(ln) for ln in seg)
+        if size >= total / workers and len(chunks) < workers - 1:
+            chunks.append(cur)
+            cur, size = [], 0
+    if cur:
+        chunks.append(cur)
+    with ThreadPoolExecutor(max_workers=workers) as ex:
+        outs = list(ex.map(lambda c: orig(driver, c, timeout), chunks))
+    return [ln for o in outs for ln in o]
+
+
 def correspond(ctx, layer, cases, nontrivial, rule):
     R = real()
     impl = Impl(R)
     orig = ctx.lean
-    ctx.lean = lambda driver, lines, timeout=1500: orig(driver, impl.model_lines(lines), timeout)
+    ctx.lean = lambda driver, lines, timeout=1500: parallel_lean(orig, driver, impl.model_lines(lines), timeout)
     try:
         return ctx.correspondence(layer, "C13", cases, impl.run_case, nontrivial, rule)
     finally:
@@ -888,7 +912,11 @@ def f32round(x):
 
 
 class OutOfDomain(Exception):
-    pass
+    """late=True: the value is built from supported types but the value the property promises back
+    (elements at float32 precision) cannot be built by Python itself - stated, not claimed"""
+    def __init__(self, why, late=False):
+        Exception.__init__(self, why)
+        self.late = late
 
 
 def expected(R, v, top=True):
@@ -929,7 +957,7 @@ def expected(R, v, top=True):
         if t is dict:
             return {expected(R, k, False): expected(R, x, False) for k, x in v.items()}
     except (AttributeError, TypeError):
-        raise OutOfDomain("keys collide after float32 rounding")
+        raise OutOfDomain("keys collide after float32 rounding", late=True)
     if isinstance(v, (R.hello, R.shello)):
         raise OutOfDomain("handshake message (custom codec, checked separately)")
     if isinstance(v, S.Serializable):
@@ -958,7 +986,10 @@ def monitor_value(R, ctx, v, label):
     try:
         exp = expected(R, v)
         indom = True
-    except OutOfDomain:
+    except OutOfDomain as e:
+        if e.late:
+            ctx.count("monitor:late-refusal-not-claimed")
+            return False
         indom = False
     except RecursionError:
         return False
@@ -1074,7 +1105,7 @@ def run(ctx):
 
     # float rounding kernel against struct
     ops = []
-    for _ in range(ctx.scale(300, 20000)):
+    for _ in range(ctx.scale(300, 40000)):
         r = rng.random()
         if r < 0.5:
             bits = rng.getrandbits(64)
@@ -1097,10 +1128,33 @@ def run(ctx):
     cases.append(make_case(R, "rounding", ops))
 
     # size limits: largest accepted and smallest refused
-    for label, v in limit_values(R) + (limit_values_slow(R) if ctx.tier == "thorough" else []):
-        b = real_encode(R, v)
-        cases.append(make_case(R, "limit-" + label, ["enc " + tok(R, v), "dec " + hx(b[:8]) + "+" + hx(b[8:])]))
+    for label, v in limit_values(R):
+        ops = ["enc " + tok(R, v)]
+        try:
+            b = real_encode(R, v)
+            ops.append("dec " + hx(b[:8]) + "+" + hx(b[8:]))
+        except Exception:
+            pass   # the differential and the monitor report it
+        cases.append(make_case(R, "limit-" + label, ops))
         values.append((label, v))
+    # dict / set at the limit: the model's dict is an association list (quadratic on distinct keys), so the
+    # decode side of the boundary is exercised with 2**14 (accepted) and 2**14+1 (refused) announced entries
+    # that repeat a few keys, and with 3000 distinct keys; the encode side with 2**14 distinct keys
+    for label, v in limit_values_slow(R):
+        cases.append(make_case(R, "limit-" + label, ["enc " + tok(R, v)]))
+        values.append((label, v))
+    one = b"\x00\x03\x01"
+    ops = []
+    for n in (2 ** 14, 2 ** 14 + 1):
+        ops.append("dec 0011+" + hx(struct.pack(">Hh", 4, n)) + "+%d*%s" % (n, (one + one).hex()))
+        ops.append("dec 0012+" + hx(struct.pack(">Hh", 4, n)) + "+%d*%s" % (n, one.hex()))
+        ops.append("dec 0010+" + hx(struct.pack(">Hh", 4, n)) + "+%d*%s" % (n, one.hex()))
+    for big in ({i: None for i in range(3000)}, set(range(3000))):
+        try:
+            ops.append("dec " + hx(real_encode(R, big)))
+        except Exception:
+            pass
+    cases.append(make_case(R, "limit-dups", ops))
     ops = []
     for label, v in refusal_values(R):
         values.append((label, v))
@@ -1129,7 +1183,7 @@ def run(ctx):
     cases.append(make_case(R, "handshake-enc", ops))
 
     # random values: encode, decode the encoding, decode concatenations
-    n = ctx.scale(250, 6000)
+    n = ctx.scale(250, 10000)
     for ci in range(n):
         ops = []
         vs = []
